@@ -13,6 +13,10 @@ statements loaded into it:
 * `AugPosDistinct reg` — the augment statements of one (sub)module stand at different positions;
 * `AugArgsPlain reg`  — every augment argument is an absolute schema node identifier: it starts
                         with `/` and no step is empty, `.` or `..` (before or behind the prefix).
+
+Also here: `NoDupNames` (C07) against `KeysUnique` / `U` (C04) and along the pipeline; the module
+cache only grows and holds the tree of every converted (sub)module (`cacheMono`, `tstate_cache_all`);
+its keys are distinct (`cacheKeys`, `tstate_ckeys_nodup`).
 -/
 set_option linter.unusedVariables false
 set_option linter.unusedSimpArgs false
